@@ -177,6 +177,12 @@ def floatDispatch (W : Nat) (op : String) (args : List String) : Option String :
     | _ => match fmtRadixTrait a.base a.mode f p k a.repr with
       | some t => pure ("ok " ++ natBytesToStr t)
       | none => none
+  -- infinities: every formatting trait prints `inf` / `-inf`; width, precision and flags are ignored
+  | "f.fmtinf", [k, p, w, _fl, b, sg, m] => do
+    let _ ← optNat p; let _ ← optNat w; let b ← parseDecNat b; let _ ← parseMode m
+    let neg ← (if sg = "-" then some true else if sg = "+" then some false else none)
+    if !fmtKindDefined k b then none
+    pure ("ok " ++ natBytesToStr (fmtInfinite neg))
   | "f.with_precision", [a, ps] => do
     let a ← parseFArg a; let p ← parseDecNat ps
     let B := a.base
